@@ -34,7 +34,9 @@ fn scripted(r: &mut Rng, allow_err: bool, max_items: usize) -> Scripted {
 pub fn random_case(r: &mut Rng) -> Case {
   let p = [1u64, 7, 100][r.below(3)];
   let src = match r.below(12) {
-    0 | 1 => Src::Interval(p),
+    0 => Src::Interval(p),
+    // periods below and between whole milliseconds
+    1 => if r.chance(1, 2) { Src::IntervalUs([250u64, 500, 1500][r.below(3)]) } else { Src::Interval(p) },
     2 | 3 => Src::IntervalAt(*r.pick(&[-20i64, 0, 10, 250, 3_600_000]), p),
     4 => if r.chance(1, 3) { Src::TimerUs(V::I(5), [400, 900, 999, 1500][r.below(4)]) } else { Src::Timer(V::I(5), [0, 1, 7, 100][r.below(4)]) },
     5 => Src::TimerAt(V::I(5), *r.pick(&[-20i64, 0, 10, 3_600_000])),
@@ -49,7 +51,7 @@ pub fn random_case(r: &mut Rng) -> Case {
       Src::StreamRes(301, long_or_short(r, true, long))
     }
   };
-  let timed = matches!(src, Src::Interval(_) | Src::IntervalAt(..) | Src::Timer(..) | Src::TimerUs(..) | Src::TimerAt(..));
+  let timed = matches!(src, Src::Interval(_) | Src::IntervalUs(_) | Src::IntervalAt(..) | Src::Timer(..) | Src::TimerUs(..) | Src::TimerAt(..));
   let gap = if timed && r.chance(1, 3) { [p * MS / 2, p * MS - 1, p * MS, 3 * p * MS + 1, 3 * MS][r.below(5)] } else { 0 };
   let mut wakes = vec![];
   if let Src::Future(id, s) | Src::FutureRes(id, s) | Src::Stream(id, s) | Src::StreamRes(id, s) = &src {
@@ -98,7 +100,7 @@ pub struct Obs {
 }
 
 pub fn observe(c: &Case) -> Result<Obs, String> {
-  let periodic = matches!(c.src, Src::Interval(_) | Src::IntervalAt(..));
+  let periodic = matches!(c.src, Src::Interval(_) | Src::IntervalUs(_) | Src::IntervalAt(..));
   let ops = if periodic { vec![Op::Take(c.take)] } else { vec![] };
   let horizon = 4_000_000 * MS; // beyond the one-hour instants
   let pipe = Pipe { chain: Chain::new(c.src.clone(), ops), n_hot: 1, acts: c.wakes.clone(), horizon };
@@ -146,8 +148,8 @@ pub fn judge(c: &Case, o: &Result<Obs, String>) -> Option<(String, String, serde
     Some((kind.to_string(), c.src.name().to_string(), json!({"why": why, "observed": o.timed.iter().map(|(t, n)| json!([t, n.j()])).collect::<Vec<_>>()})))
   };
   match &c.src {
-    Src::Interval(p) | Src::IntervalAt(_, p) => {
-      let p = *p * MS;
+    Src::Interval(p) | Src::IntervalUs(p) | Src::IntervalAt(_, p) => {
+      let p = if matches!(c.src, Src::IntervalUs(_)) { *p * (MS / 1000) } else { *p * MS };
       let mut want: Vec<N> = (0..c.take as i64).map(|i| N::Next(V::I(i))).collect();
       want.push(N::Complete);
       if notes != want {
@@ -157,7 +159,7 @@ pub fn judge(c: &Case, o: &Result<Obs, String>) -> Option<(String, String, serde
       // g: the executor's first run; a tick due before it happens at it
       let g = c.gap;
       let (lo, hi): (u64, u64) = match &c.src {
-        Src::Interval(_) => (p.max(g), p.max(g)),
+        Src::Interval(_) | Src::IntervalUs(_) => (p.max(g), p.max(g)),
         Src::IntervalAt(off, _) if *off > 0 => {
           let off = *off as u64 * MS;
           (off.saturating_sub(o.eps).max(g), off.max(g))
@@ -261,6 +263,7 @@ pub fn run(cfg: &Cfg, rep: &mut Report) {
         Src::IntervalAt(off, p) | Src::IntervalAt(off, p) if *off > 0 && (*off as u64) < *p => "[instant<period]",
         Src::IntervalAt(off, _) if *off > 0 => "[instant>=period]",
         Src::IntervalAt(..) => "[past instant]",
+        Src::IntervalUs(_) => "[period in microseconds]",
         _ => "",
       };
       let cls = format!("{}{}", cls, if c.gap > 0 { "[idle gap before the first run]" } else { "" });
